@@ -31,6 +31,7 @@ import (
 	osexec "os/exec"
 	"regexp"
 	"runtime"
+	"runtime/pprof"
 	"sort"
 	"strings"
 	"sync"
@@ -197,6 +198,7 @@ type histRec struct {
 	Hang     bool     `json:"hang,omitempty"`
 	Dump     string   `json:"dump,omitempty"`
 	Ms       int64    `json:"ms"`
+	OpMs     []int64  `json:"op_ms"`
 }
 
 // ---- executing one history ------------------------------------------------------
@@ -208,7 +210,7 @@ type world struct {
 	sess       *exec.Session
 	sys        *vsys.System
 	res        []*exec.Result // primary results r0, r1
-	derived    []*exec.Result
+	derived    []*exec.Result // results of Funcs over r_i (also of failed runs)
 	discarded  [2]bool
 	killed     bool
 	badDirect  bool
@@ -413,6 +415,9 @@ func (w *world) step(ctx context.Context, opi int) bool {
 		}
 		d, err := w.sess.Run(ctx, g, w.res[idx])
 		if err != nil {
+			if d != nil {
+				w.derived = append(w.derived, d)
+			}
 			w.violate(opi, sigOf("func-over-result-fails"),
 				"Run of a Func ("+opNames[op[0]]+") over a result returned an error (it must recompute what is missing and succeed)",
 				map[string]interface{}{"error": errStr(err), "want_rows": want, "condition": cond})
@@ -465,9 +470,14 @@ func (w *world) step(ctx context.Context, opi int) bool {
 			mech("discard/of-partly-lost-result")
 		}
 	case 'K':
+		// candidates: machines that are up (bigmachine state RUNNING); a machine
+		// that is still booting holds nothing and its loss is a boot failure,
+		// which bigmachine resolves on its boot time-out (minutes), not here
+		w.settle()
+		ms := exec.VerifC12Machines(w.sess)
 		var alive []string
 		for _, h := range w.sys.Hosts() {
-			if w.sys.Alive(h) {
+			if w.sys.Alive(h) && ms["http://"+h] == "RUNNING" {
 				alive = append(alive, h)
 			}
 		}
@@ -531,6 +541,49 @@ func (w *world) condAll() string {
 	return w.cond(0)
 }
 
+// quiesce waits until no task of any result is still WAITING or RUNNING: a failed
+// evaluation leaves task goroutines behind, and Session.Shutdown under their feet
+// makes them panic ("call after close" in the invocation disk cache), which is not
+// what this check is about.
+func (w *world) quiesce() {
+	all := append(append([]*exec.Result{}, w.res...), w.derived...)
+	deadline := time.Now().Add(10 * time.Second)
+	for time.Now().Before(deadline) {
+		busy := false
+		for _, r := range all {
+			for _, t := range exec.VerifC12Tasks(r) {
+				if t.State == "WAITING" || t.State == "RUNNING" {
+					busy = true
+				}
+			}
+		}
+		if !busy {
+			return
+		}
+		time.Sleep(2 * time.Millisecond)
+	}
+}
+
+// settle waits until no machine is still booting.
+func (w *world) settle() {
+	if w.sys == nil {
+		return
+	}
+	deadline := time.Now().Add(10 * time.Second)
+	for time.Now().Before(deadline) {
+		booting := false
+		for _, st := range exec.VerifC12Machines(w.sess) {
+			if st == "STARTING" || st == "UNSTARTED" {
+				booting = true
+			}
+		}
+		if !booting {
+			return
+		}
+		time.Sleep(2 * time.Millisecond)
+	}
+}
+
 func runHistory(idx int, kind, prog string, ops []string) *histRec {
 	t0 := time.Now()
 	rec := &histRec{Idx: idx, Kind: kind, Prog: prog, Ops: ops}
@@ -543,13 +596,19 @@ func runHistory(idx int, kind, prog string, ops []string) *histRec {
 	}
 	ctx := context.Background()
 	for i := range ops {
+		t1 := time.Now()
 		cont := w.step(ctx, i)
+		rec.OpMs = append(rec.OpMs, time.Since(t1).Milliseconds())
 		rec.States = append(rec.States, w.state())
 		if !cont {
 			break
 		}
 	}
+	t2 := time.Now()
+	w.quiesce()
+	w.settle()
 	w.sess.Shutdown()
+	rec.OpMs = append(rec.OpMs, time.Since(t2).Milliseconds())
 	if w.sys != nil {
 		for _, h := range w.sys.Hosts() {
 			w.sys.Kill(h)
@@ -564,6 +623,11 @@ func runHistory(idx int, kind, prog string, ops []string) *histRec {
 const hangAfter = 60 * time.Second
 
 func childMain() {
+	if p := os.Getenv("C12_CPUPROFILE"); p != "" {
+		f, _ := os.Create(p)
+		pprof.StartCPUProfile(f)
+		defer pprof.StopCPUProfile()
+	}
 	vsys.Quiet()
 	vsys.FastRetries()
 	exec.DoShuffleReaders = false
@@ -594,7 +658,6 @@ func childMain() {
 			os.Exit(3)
 		}
 	}
-	os.Exit(0)
 }
 
 // trimDump keeps the goroutines that are inside bigslice code.
@@ -654,6 +717,7 @@ func enumerate(kind string, length int) [][]string {
 // and returns one record per job.
 func runBatch(self string, jobs []job) []*histRec {
 	var recs []*histRec
+	crashed := map[int]int{}
 	for len(jobs) > 0 {
 		var stdin bytes.Buffer
 		for _, j := range jobs {
@@ -694,8 +758,15 @@ func runBatch(self string, jobs []job) []*histRec {
 			jobs = jobs[got:]
 			continue
 		}
-		// the child died while executing jobs[got]
+		// the child died while executing jobs[got]; goroutines left behind by an
+		// earlier history of the same child may be the cause, so the history gets a
+		// second chance at the head of a new child before it is blamed
 		j := jobs[got]
+		if crashed[j.idx] == 0 {
+			crashed[j.idx]++
+			jobs = jobs[got:]
+			continue
+		}
 		tail := stderr.String()
 		if len(tail) > 3000 {
 			tail = tail[len(tail)-3000:]
@@ -799,6 +870,14 @@ func main() {
 		budget = 9 * time.Minute
 	}
 	progs := []string{"s1", "s2", "sh"}
+	// the additional program "sh" (result out of a shuffle) is explored one level
+	// less deep on the cluster, where a history costs ~0.5 CPU-seconds
+	depthOf := func(kind, prog string) int {
+		if kind == "vsys" && prog == "sh" {
+			return depth - 1
+		}
+		return depth
+	}
 
 	// layer S runs concurrently in its own process (it uses few cores)
 	var (
@@ -826,6 +905,9 @@ func main() {
 			for _, kind := range []string{"local", "vsys"} {
 				hs := enumerate(kind, l)
 				for _, prog := range progs {
+					if l > depthOf(kind, prog) {
+						continue
+					}
 					for _, h := range hs {
 						jobs = append(jobs, job{len(jobs), kind, prog, h})
 					}
@@ -950,8 +1032,18 @@ func main() {
 			r.Violate(c.sig, c.v.What, c.v.Detail)
 		}
 	}
+	var unconfDetail []interface{}
 	for _, sig := range sigOrder {
 		if !confirmed[sig] {
+			for _, v := range sigsOf(cands[sig][0]) {
+				if v.Sig == sig {
+					b, _ := json.Marshal(v.Detail)
+					if len(b) > 6000 {
+						b = b[:6000]
+					}
+					unconfDetail = append(unconfDetail, map[string]string{"signature": sig, "detail": string(b)})
+				}
+			}
 			unconfirmed++
 			r.Note("not reported (not reproduced 3 of 3): %s, first seen in %s/%s %s", sig, cands[sig][0].Kind, cands[sig][0].Prog, strings.Join(cands[sig][0].Ops, " "))
 		}
@@ -983,6 +1075,7 @@ func main() {
 		"slowest_history_ms":       maxMs,
 		"signatures_first_pass":    len(sigOrder),
 		"signatures_not_confirmed": unconfirmed,
+		"unconfirmed":              unconfDetail,
 		"rule":                     "every history up to the depth is replayed in a fresh session (state de-duplication is used for counting only); cluster: verifsystem, 2 procs/machine, Parallelism(4), fast retries, DoShuffleReaders=false; a signature is reported only when reproduced 3 of 3 times",
 	}
 
